@@ -77,6 +77,20 @@ pub fn enable_pure(cap_ms: i64, jitter_ns: i64, seed: u64, tick_ns: i64, op_cost
     PURE.store(true, SeqCst);
 }
 
+pub fn pure() -> bool {
+    ENABLED.load(SeqCst) && PURE.load(SeqCst)
+}
+
+/// real time the subject spent asleep in a blocking call, charged to the deterministic clock
+pub static BLOCKED_NS: AtomicU64 = AtomicU64::new(0);
+
+pub fn charge_blocked(ns: i64) {
+    if ns > 0 {
+        BLOCKED_NS.fetch_add(ns as u64, SeqCst);
+        advance(ns);
+    }
+}
+
 pub fn enabled() -> bool {
     ENABLED.load(SeqCst)
 }
@@ -92,6 +106,7 @@ pub fn enable(cap_ms: i64, jitter_ns: i64, seed: u64) {
     SLEEPS.store(0, SeqCst);
     SLEPT_NS.store(0, SeqCst);
     TOTAL_JITTER_NS.store(0, SeqCst);
+    BLOCKED_NS.store(0, SeqCst);
     ENABLED.store(true, SeqCst);
 }
 
